@@ -335,6 +335,10 @@ class Ctx:
             'violations': len(new) + (1 if (self.broken and not new) else 0),
         }
         ev['coverage'].update(self.extra)
+        if 'exhaustive' in ev['coverage'] and not isinstance(ev['coverage']['exhaustive'], bool):
+            # the schema wants a boolean; keep the description of the exhaustively enumerated sub-spaces next to it
+            ev['coverage']['exhaustive_subspaces'] = ev['coverage']['exhaustive']
+            ev['coverage']['exhaustive'] = bool(ev['coverage']['exhaustive'])
         evdir = os.environ.get('VERIF_EVIDENCE_DIR') or os.path.join(HOME, 'evidence')     # (seedtest redirects it: runs against mutated trees are not evidence)
         os.makedirs(evdir, exist_ok=True)
         json.dump(ev, open(os.path.join(evdir, self.pid + '.json'), 'w'), indent=1, default=str)
